@@ -271,8 +271,11 @@ func (c *Cache[K, V]) Wait() {
 		return
 	}
 	wait := make(chan struct{})
+	verifPoint(vpWaitBeforeSend)
 	c.setBuf <- &Item[V]{wait: wait}
+	verifPoint(vpWaitSent)
 	<-wait
+	verifPoint(vpWaitDone)
 }
 
 // Get returns the value (if any) and a boolean representing whether the
@@ -285,7 +288,9 @@ func (c *Cache[K, V]) Get(key K) (V, bool) {
 	keyHash, conflictHash := c.keyToHash(key)
 
 	c.getBuf.Push(keyHash)
+	verifPoint(vpGetBeforeStore)
 	value, ok := c.storedItems.Get(keyHash, conflictHash)
+	verifPoint(vpGetAfterStore)
 	if ok {
 		c.Metrics.add(hit, keyHash, 1)
 	} else {
@@ -348,14 +353,18 @@ func (c *Cache[K, V]) SetWithTTL(key K, value V, cost int64, ttl time.Duration) 
 	// cost is eventually updated. The expiration must also be immediately updated
 	// to prevent items from being prematurely removed from the map.
 	if prev, ok := c.storedItems.Update(i); ok {
+		verifPoint(vpSetAfterUpdate)
 		c.onExit(prev)
 		i.flag = itemUpdate
 	}
+	verifPoint(vpSetBeforeSend)
 	// Attempt to send item to cachePolicy.
 	select {
 	case c.setBuf <- i:
+		verifPoint(vpSetSent)
 		return true
 	default:
+		verifPoint(vpSetDropped)
 		if i.flag == itemUpdate {
 			// Return true if this was an update operation since we've already
 			// updated the storedItems. For all the other operations (set/delete), we
@@ -375,7 +384,9 @@ func (c *Cache[K, V]) Del(key K) {
 	keyHash, conflictHash := c.keyToHash(key)
 	// Delete immediately.
 	_, prev := c.storedItems.Del(keyHash, conflictHash)
+	verifPoint(vpDelAfterStore)
 	c.onExit(prev)
+	verifPoint(vpDelBeforeSend)
 	// If we've set an item, it would be applied slightly later.
 	// So we must push the same item to `setBuf` with the deletion flag.
 	// This ensures that if a set is followed by a delete, it will be
@@ -385,6 +396,7 @@ func (c *Cache[K, V]) Del(key K) {
 		Key:      keyHash,
 		Conflict: conflictHash,
 	}
+	verifPoint(vpDelSent)
 }
 
 // GetTTL returns the TTL for the specified key and a bool that is true if the
@@ -430,10 +442,13 @@ func (c *Cache[K, V]) Close() {
 		return
 	}
 	c.Clear()
+	verifPoint(vpCloseCleared)
 
 	// Block until processItems goroutine is returned.
 	c.stop <- struct{}{}
+	verifPoint(vpCloseStopSent)
 	<-c.done
+	verifPoint(vpCloseDone)
 	close(c.stop)
 	close(c.done)
 	close(c.setBuf)
@@ -451,13 +466,16 @@ func (c *Cache[K, V]) Clear() {
 	}
 	// Block until processItems goroutine is returned.
 	c.stop <- struct{}{}
+	verifPoint(vpClearStopSent)
 	<-c.done
+	verifPoint(vpClearDone)
 
 	// Clear out the setBuf channel.
 loop:
 	for {
 		select {
 		case i := <-c.setBuf:
+			verifObserve(vpClearDrainItem, uint64(i.flag), i.Key)
 			if i.wait != nil {
 				close(i.wait)
 				continue
@@ -472,13 +490,17 @@ loop:
 		}
 	}
 
+	verifPoint(vpClearDrained)
 	// Clear value hashmap and cachePolicy data.
 	c.cachePolicy.Clear()
+	verifPoint(vpClearPolicy)
 	c.storedItems.Clear(c.onEvict)
+	verifPoint(vpClearStore)
 	// Only reset metrics if they're enabled.
 	if c.Metrics != nil {
 		c.Metrics.Clear()
 	}
+	verifPoint(vpClearMetrics)
 	// Restart processItems goroutine.
 	go c.processItems()
 }
@@ -539,8 +561,11 @@ func (c *Cache[K, V]) processItems() {
 	for {
 		select {
 		case i := <-c.setBuf:
+			verifObserve(vpAppItem, uint64(i.flag), i.Key)
+			verifPoint(vpAppItem)
 			if i.wait != nil {
 				close(i.wait)
+				verifPoint(vpAppMarker)
 				continue
 			}
 			// Calculate item cost value if new or update.
@@ -551,10 +576,13 @@ func (c *Cache[K, V]) processItems() {
 				// Add the cost of internally storing the object.
 				i.Cost += itemSize
 			}
+			verifObserve(vpAppCosted, uint64(i.Cost), i.Key)
+			verifPoint(vpAppCosted)
 
 			switch i.flag {
 			case itemNew:
 				victims, added := c.cachePolicy.Add(i.Key, i.Cost)
+				verifPoint(vpAppAdded)
 				if added {
 					c.storedItems.Set(i)
 					c.Metrics.add(keyAdd, i.Key, 1)
@@ -562,23 +590,35 @@ func (c *Cache[K, V]) processItems() {
 				} else {
 					c.onReject(i)
 				}
+				verifPoint(vpAppStored)
 				for _, victim := range victims {
+					verifObserve(vpAppVictimDel, victim.Key, uint64(victim.Cost))
+					verifPoint(vpAppVictimDel)
 					victim.Conflict, victim.Value = c.storedItems.Del(victim.Key, 0)
+					verifPoint(vpAppVictimEvict)
 					onEvict(victim)
 				}
 
 			case itemUpdate:
 				c.cachePolicy.Update(i.Key, i.Cost)
+				verifPoint(vpAppUpdated)
 
 			case itemDelete:
 				c.cachePolicy.Del(i.Key) // Deals with metrics updates.
+				verifPoint(vpAppTombPolicy)
 				_, val := c.storedItems.Del(i.Key, i.Conflict)
+				verifPoint(vpAppTombStore)
 				c.onExit(val)
 			}
+			verifPoint(vpAppItemDone)
 		case <-c.cleanupTicker.C:
+			verifPoint(vpAppTick)
 			c.storedItems.Cleanup(c.cachePolicy, onEvict)
+			verifPoint(vpAppTickDone)
 		case <-c.stop:
+			verifPoint(vpAppStop)
 			c.done <- struct{}{}
+			verifPoint(vpAppDoneSent)
 			return
 		}
 	}
